@@ -644,8 +644,9 @@ class PteraTransformer(NodeTransformer):
         After:
             x: int = _ptera_interact('x', int)
         """
+        value = node.value and self.visit(node.value)
         return self.make_interaction(
-            node.target, self._ann(node.annotation), node.value, orig=node
+            node.target, self._ann(node.annotation), value, orig=node
         )
 
     def visit_Assign(self, node):
@@ -663,7 +664,7 @@ class PteraTransformer(NodeTransformer):
             ass_all = ast.copy_location(
                 ast.Assign(
                     targets=[ast.Name(id=var_all, ctx=ast.Store())],
-                    value=node.value,
+                    value=self.visit(node.value),
                 ),
                 node,
             )
@@ -697,7 +698,7 @@ class PteraTransformer(NodeTransformer):
             )
         else:
             return self.make_interaction(
-                targets[0], None, node.value, orig=node
+                targets[0], None, self.visit(node.value), orig=node
             )
 
     def visit_AugAssign(self, node):
